@@ -29,6 +29,39 @@ def is_hash_producer(c):
     return False
 
 
+SORTS = ("::sort", "::sort_by", "::sort_by_key", "::sort_unstable", "::sort_unstable_by", "::sort_unstable_by_key", "::sort_by_cached_key")
+
+
+def _sorted_before_use(fn, collect_call):
+    """the Vec produced by `collect` is sorted (slice::sort*) in a block that dominates every other call reading it"""
+    if collect_call.dest[1]:
+        return False
+    v = collect_call.dest[0]
+    dom = fn.dominators()
+    sorts, others = [], []
+    for x in fn.calls():
+        if x is collect_call:
+            continue
+        uses = False
+        for a in x.args:
+            if a[0] != "k":
+                d = fn.derived_from(a[1][0])
+                if v in d["locals"] or a[1][0] == v:
+                    uses = True
+        if not uses:
+            continue
+        last = x.name.rsplit("::", 1)[-1]
+        if any(x.name.endswith(s_) for s_ in SORTS) and "slice" in x.name:
+            sorts.append(x)
+        elif last in ("deref", "deref_mut", "as_mut_slice", "as_mut", "borrow_mut"):
+            continue
+        else:
+            others.append(x)
+    if not sorts:
+        return False
+    return all(any(s_.bb in dom.get(o.bb, ()) and s_.bb != o.bb for s_ in sorts) for o in others)
+
+
 def classify_consumer(p, fn, c, depth=0):
     """('insensitive'|'sensitive', why) for the value produced by call c in fn"""
     if depth > 6:
@@ -67,6 +100,8 @@ def classify_consumer(p, fn, c, depth=0):
                 tgt = " ".join(cc.ga)
                 if UNORDERED_SINKS.search(tgt.split(" ")[-1] if cc.ga else ""):
                     verdicts.append(("insensitive", "collect into an unordered/sorted collection"))
+                elif last == "collect" and _sorted_before_use(fn, cc):
+                    verdicts.append(("insensitive", "collected into a Vec that is sorted before anything else reads it"))
                 else:
                     verdicts.append(("sensitive", "collected into %s" % (cc.ga[-1] if cc.ga else "?")))
                 continue
